@@ -571,27 +571,43 @@ Qed.
 
 
 (* what one call hands to the spectators: the next n frames after those already sent, consecutive,
-   each with the inputs held for it (n = 0 for every call other than a successful advance_frame) *)
+   each with the inputs held for it (n = 0 for every call other than a successful advance_frame);
+   every frame sent is one for which every player's input is already held *)
 Definition spec_step (p : p2p) (gs : list ghost) (o : pout) (p' : p2p) : Prop :=
   ps_spectators p' = ps_spectators p /\
   exists n : nat,
     o_spec_sends o = (match ps_spectators p with [] => [] | _ =>
                         if existsb (fun b => b) (ps_spectators p)
                         then map (fun f => (f, held_at gs f)) (zrange_from (ps_next_spec p) n) else [] end) /\
-    ps_next_spec p' = (match ps_spectators p with [] => ps_next_spec p | _ => ps_next_spec p + Z.of_nat n end).
+    ps_next_spec p' = (match ps_spectators p with [] => ps_next_spec p | _ => ps_next_spec p + Z.of_nat n end) /\
+    (ps_spectators p <> [] -> Forall (fun g : ghost => ps_next_spec p + Z.of_nat n <= hlen (fst g)) gs).
 
-Lemma spec_step_none : forall p gs o p', ps_spectators p' = ps_spectators p -> ps_next_spec p' = ps_next_spec p ->
+Lemma spec_step_none : forall p gs o p', spec_ok p gs -> ps_spectators p' = ps_spectators p -> ps_next_spec p' = ps_next_spec p ->
   o_spec_sends o = [] -> spec_step p gs o p'.
 Proof.
-  intros p gs o p' A B C. split; [exact A|]. exists O. rewrite C, B. cbn [zrange_from map Z.of_nat].
-  destruct (ps_spectators p); [split; reflexivity|]. destruct (existsb _ _); split; try reflexivity; lia.
+  intros p gs o p' Hs A B C. split; [exact A|]. exists O. rewrite C, B. cbn [zrange_from map Z.of_nat].
+  split; [destruct (ps_spectators p); [reflexivity|]; destruct (existsb _ _); reflexivity|].
+  split; [destruct (ps_spectators p); [reflexivity|lia]|].
+  intros Hne. destruct (Hs Hne) as (_ & _ & X). eapply Forall_impl; [|exact X]. cbv beta. intros g Hg. lia.
 Qed.
 
-Lemma spec_sent_step : forall p gs cf o p', ps_spectators p' = ps_spectators p ->
+Lemma cf_bound : forall w d p gs cf, QS w d p gs -> confirmed_frame p = Ok cf -> Forall (fun g : ghost => cf + 1 <= hlen (fst g)) gs.
+Proof.
+  intros w d p gs cf HQS E. unfold confirmed_frame in E.
+  destruct (cf_fold (ps_status p) I32MAX (qs_conn _ _ _ _ HQS)) as (_ & B & _).
+  set (m := fold_left _ _ _) in *. destruct (m <? I32MAX); [|discriminate]. injection E as <-.
+  pose proof (cf_le_all _ _ _ (qs_last _ _ _ _ HQS) B) as X. eapply Forall_impl; [|exact X]. cbv beta. intros g Hg. lia.
+Qed.
+
+Lemma spec_sent_step : forall p gs cf o p', spec_ok p gs -> Forall (fun g : ghost => cf + 1 <= hlen (fst g)) gs ->
+  ps_spectators p' = ps_spectators p ->
   o_spec_sends o = spec_sent p gs cf -> ps_next_spec p' = next_spec_after p cf -> spec_step p gs o p'.
 Proof.
-  intros p gs cf o p' A B C. split; [exact A|]. exists (Z.to_nat (cf - ps_next_spec p + 1)).
-  unfold spec_sent, next_spec_after in *. rewrite B, C. destruct (ps_spectators p); [split; reflexivity|]. split; [reflexivity|lia].
+  intros p gs cf o p' Hs Hcf A B C. split; [exact A|]. exists (Z.to_nat (cf - ps_next_spec p + 1)).
+  unfold spec_sent, next_spec_after in *. rewrite B, C.
+  split; [destruct (ps_spectators p); reflexivity|]. split; [destruct (ps_spectators p); [reflexivity|lia]|].
+  intros Hne. destruct (Hs Hne) as (_ & _ & X). apply Forall_forall. intros g Hg. rewrite Forall_forall in X, Hcf.
+  pose proof (X g Hg). pose proof (Hcf g Hg). lia.
 Qed.
 
 Lemma advance_timeline : forall p gs g w d p' o r G,
@@ -605,7 +621,7 @@ Proof.
   destruct Hw as (Hw1 & Hw2 & Hw3). destruct Hmode as (Hrun & Hsp & Hdf).
   unfold advance in E. rewrite Hrun in E. cbn [negb] in E.
   destruct (forallb _ (local_handles p)) eqn:Efa; cbn [negb] in E.
-  2:{ injection E as <- <- <-. exists gs. split; [exact HQS|]. split; [exact HTI|]. split; [apply hist_step_refl|]. split; [reflexivity|apply spec_step_none; reflexivity]. }
+  2:{ injection E as <- <- <-. exists gs. split; [exact HQS|]. split; [exact HTI|]. split; [apply hist_step_refl|]. split; [reflexivity|apply spec_step_none; [exact Hsok|reflexivity..]]. }
   assert (Hpend : forall h, In h (local_handles p) -> exists pi, assoc_get (ps_pending p) h = Some pi).
   { intros h Hin. rewrite forallb_forall in Efa. specialize (Efa h Hin).
     destruct (assoc_get (ps_pending p) h); [eauto|discriminate]. }
@@ -639,7 +655,8 @@ Proof.
   { rewrite Hst1. exact Hbnd. }
   { intros h Hin. rewrite Hpe1. apply Hpend. rewrite <- Hlh1. exact Hin. }
   exists gs'. split; [exact HQS'|]. split; [rewrite Ho, replay_hist_app, Hrep1; exact HTI'|]. split; [rewrite <- Hpe1, <- Hlh1; exact Hh'|]. split; [congruence|].
-  apply (spec_sent_step p gs cf); [congruence| |].
+  apply (spec_sent_step p gs cf); [exact Hsok| |congruence| |].
+  - apply (cf_bound w d p gs cf HQS). unfold confirmed_frame in *. rewrite <- Hst1. exact Ecf.
   - rewrite Hsent, Hos1. unfold spec_sent. rewrite Hss1, Hns1. reflexivity.
   - rewrite Hns'. unfold next_spec_after. rewrite Hss1, Hns1. reflexivity.
 Qed.
@@ -741,7 +758,7 @@ Proof.
     split; [reflexivity|]. split; [exact HQl|]. split; [reflexivity|]. split; [exact HJ'|]. split; [eapply TI_sync; [exact Hs|exact HTI]|].
     split; [reflexivity|]. unfold api_add_local_input in E1.
     split; [destruct (kind_at p h) as [[| |]|]; injection E1 as <- _; reflexivity|].
-    apply spec_step_none; [| |reflexivity]; destruct (kind_at p h) as [[| |]|]; injection E1 as <- _; reflexivity.
+    apply spec_step_none; [exact (qs_spec _ _ _ _ HQS)| | |reflexivity]; destruct (kind_at p h) as [[| |]|]; injection E1 as <- _; reflexivity.
   - apply andb_prop in Hok. destruct Hok as [Hok H5]. apply andb_prop in Hok. destruct Hok as [Hok H4].
     apply andb_prop in Hok. destruct Hok as [Hok H3]. apply andb_prop in Hok. destruct Hok as [H1 H2].
     destruct (nth_error (ps_kinds p) (Z.to_nat pl)) as [[|e|e]|] eqn:Ek; try discriminate.
@@ -752,9 +769,9 @@ Proof.
     split; [reflexivity|]. split; [exact HQ'|]. split; [reflexivity|].
     split; [eapply JI_frame; [exact HJI|]; eapply ev_input_frame; exact E|].
     split; [|split; [cbn [op_hist]; exists hist, low; split; [exact Eg|reflexivity]|]].
-    2:{ clear - E. unfold ev_input in E. destruct (negb _); [discriminate|]. destruct (cs_disc _); [injection E as <-; split; [reflexivity|apply spec_step_none; reflexivity]|].
+    2:{ pose proof (qs_spec _ _ _ _ HQS) as Hsk. clear - E Hsk. unfold ev_input in E. destruct (negb _); [discriminate|]. destruct (cs_disc _); [injection E as <-; split; [reflexivity|apply spec_step_none; [exact Hsk|reflexivity..]]|].
         destruct (negb _); [discriminate|]. destruct (add_remote_input _ _ _ _); cbn [res_bind] in E; try discriminate. injection E as <-.
-        split; [reflexivity|apply spec_step_none; reflexivity]. }
+        split; [reflexivity|apply spec_step_none; [exact Hsk|reflexivity..]]. }
     destruct HTI as (HG & HGI & HPN). unfold TI. rewrite Hc', Hqs'.
     pose proof (Forall2_nth _ _ _ _ _ _ (qs_qs _ _ _ _ HQS) Eq Eg) as Hqi. cbn [fst snd] in Hqi.
     destruct (gq_remote_add _ _ (g_hist g) (Z.to_nat pl) q hist low q' v Hqi (HGI _ _ _ Eq Eg) (HPN _ _ _ Eq Eg) F' P') as (HGQ' & HPN').
@@ -775,7 +792,7 @@ Proof.
     split; [reflexivity|]. split.
     { apply gossip_progress; [exact HQS|]. apply Forall_forall. intros s0 Hs0. rewrite forallb_forall in Hok.
       specialize (Hok s0 Hs0). destruct (cs_disc s0); [discriminate|reflexivity]. }
-    split; [reflexivity|]. split; [exact HJ'|]. split; [|split; [reflexivity|split; [unfold gossip; destruct (nth_error (ps_remotes p) (Z.to_nat ep)); reflexivity|apply spec_step_none; try reflexivity; unfold gossip; destruct (nth_error (ps_remotes p) (Z.to_nat ep)); reflexivity]]].
+    split; [reflexivity|]. split; [exact HJ'|]. split; [|split; [reflexivity|split; [unfold gossip; destruct (nth_error (ps_remotes p) (Z.to_nat ep)); reflexivity|apply spec_step_none; [exact (qs_spec _ _ _ _ HQS)| | |reflexivity]; unfold gossip; destruct (nth_error (ps_remotes p) (Z.to_nat ep)); reflexivity]]].
     eapply TI_sync; [|exact HTI]. unfold gossip. destruct (nth_error (ps_remotes p) (Z.to_nat ep)); reflexivity.
   - assert (Hbnd : Forall (fun c => cs_last c < I32MAX) (ps_status p)).
     { apply Forall_forall. intros s0 Hs0. rewrite forallb_forall in Hok. specialize (Hok s0 Hs0). lia. }
@@ -862,6 +879,102 @@ Proof.
       destruct (Hst' pl e _ low1 Hpl ltac:(rewrite Hk1; exact Hk) A1) as (low' & A').
       exists low'. rewrite A'. f_equal. f_equal. rewrite <- app_assoc. f_equal.
       change (o :: ops) with ([o] ++ ops). unfold remote_vals. rewrite flat_map_app. reflexivity.
+Qed.
+
+(* ---------- the host's broadcast to its spectators over a whole run (C06, host half) ---------- *)
+(* histories only grow, by appending *)
+Definition grows_gs (gs gs' : list ghost) : Prop :=
+  length gs' = length gs /\
+  forall h g', nth_error gs' h = Some g' -> exists g ext, nth_error gs h = Some g /\ fst g' = fst g ++ ext.
+Lemma grows_gs_refl : forall gs, grows_gs gs gs.
+Proof. intros gs. split; [reflexivity|]. intros h g' H. exists g', []. rewrite app_nil_r. split; [exact H|reflexivity]. Qed.
+Lemma grows_gs_trans : forall a b c, grows_gs a b -> grows_gs b c -> grows_gs a c.
+Proof.
+  intros a b c (L1 & H1) (L2 & H2). split; [congruence|]. intros h g' H.
+  destruct (H2 h g' H) as (g1 & e1 & A1 & B1). destruct (H1 h g1 A1) as (g0 & e0 & A0 & B0).
+  exists g0, (e0 ++ e1). split; [exact A0|]. rewrite B1, B0, app_assoc. reflexivity.
+Qed.
+
+Lemma op_hist_grows : forall w d p o gs gs' p', QS w d p gs -> QS w d p' gs' -> ps_nplayers p' = ps_nplayers p ->
+  op_hist d p o gs gs' -> grows_gs gs gs'.
+Proof.
+  intros w d p o gs gs' p' HQ HQ' Hnp Hop.
+  assert (Hlen : length gs' = length gs).
+  { destruct (qs_n _ _ _ _ HQ) as (A & _). destruct (qs_n _ _ _ _ HQ') as (B & _). lia. }
+  destruct o as [h v|pl f v|ep st|hs|h|h dd|]; cbn [op_hist] in Hop; try (subst gs'; apply grows_gs_refl).
+  - destruct Hop as (hist & low & A & ->). split; [exact Hlen|]. intros h g' H.
+    assert (Hl : (Z.to_nat pl < length gs)%nat) by (apply nth_error_Some; congruence).
+    destruct (Nat.eq_dec (Z.to_nat pl) h) as [<-|Hne].
+    + rewrite nth_error_updz_same in H by exact Hl. injection H as <-. exists (hist, low), [v]. split; [exact A|reflexivity].
+    + rewrite nth_error_updz_other in H by exact Hne. exists g', []. rewrite app_nil_r. split; [exact H|reflexivity].
+  - split; [exact Hlen|]. intros h g' H. destruct (Hop h g' H) as (g0 & A & [B|(_ & pi & k & _ & B & _)]).
+    + exists g0, []. rewrite app_nil_r. split; [exact A|exact B].
+    + exists g0, (repeat 0 k ++ [pi_val pi]). split; [exact A|exact B].
+Qed.
+
+Lemma held_at_stable : forall gs gs' f, grows_gs gs gs' -> 0 <= f ->
+  Forall (fun g : ghost => f < hlen (fst g)) gs -> held_at gs' f = held_at gs f.
+Proof.
+  intros gs gs' f (Hl & Hg) Hf Hb. unfold held_at.
+  apply (nth_ext _ _ (mkpi 0 0) (mkpi 0 0)); [rewrite !map_length; exact Hl|].
+  intros n Hn. rewrite map_length in Hn.
+  destruct (nth_error gs' n) as [g'|] eqn:E'; [|apply nth_error_None in E'; lia].
+  destruct (Hg n g' E') as (g0 & ext & E0 & Ex).
+  rewrite (nth_error_nth _ _ _ (map_nth_error _ _ _ E')), (nth_error_nth _ _ _ (map_nth_error _ _ _ E0)).
+  f_equal. rewrite Ex. apply hval_app_old. rewrite Forall_forall in Hb. pose proof (Hb g0 (nth_error_In _ _ E0)). lia.
+Qed.
+
+Lemma zrange_app : forall n m a, zrange_from a (n + m) = zrange_from a n ++ zrange_from (a + Z.of_nat n) m.
+Proof.
+  induction n as [|n IH]; intros m a; cbn [zrange_from plus app]; [f_equal; lia|].
+  rewrite IH. f_equal. f_equal. f_equal. lia.
+Qed.
+
+Definition all_spec_sends (outs : list (pout * apires)) : list (Z * list pinput) :=
+  concat (map (fun o => o_spec_sends (fst o)) outs).
+
+(* run_timeline, plus: with at least one running spectator endpoint, everything the host hands to its
+   spectators during the run is - concatenated - the frames from the old next_spectator_frame on, each
+   exactly once, in order, each with the inputs held for it at the end (= when it was sent), and never
+   a frame for which some player's input is not yet held *)
+Theorem run_timeline_broadcast : forall ops p gs g w d,
+  QS w d p gs -> JI w p g -> TI p gs (g_hist g) ->
+  ps_spectators p <> [] -> existsb (fun b => b) (ps_spectators p) = true ->
+  srun_in predict p ops = Err \/
+  exists p' outs gs' g', srun_in predict p ops = Ok (p', outs) /\
+    exec_outs w g outs = Some g' /\ QS w d p' gs' /\ JI w p' g' /\ TI p' gs' (g_hist g') /\
+    grows_gs gs gs' /\ ps_spectators p' = ps_spectators p /\ ps_nplayers p' = ps_nplayers p /\
+    ps_next_spec p <= ps_next_spec p' /\
+    all_spec_sends outs = map (fun f => (f, held_at gs' f)) (zrange_from (ps_next_spec p) (Z.to_nat (ps_next_spec p' - ps_next_spec p))).
+Proof.
+  induction ops as [|o ops IH]; intros p gs g w d HQS HJI HTI Hne Hex.
+  - right. exists p, [], gs, g. cbn [srun_in exec_outs all_spec_sends map concat]. split; [reflexivity|]. split; [reflexivity|].
+    split; [exact HQS|]. split; [exact HJI|]. split; [exact HTI|]. split; [apply grows_gs_refl|]. split; [reflexivity|]. split; [reflexivity|].
+    split; [lia|]. rewrite Z.sub_diag. reflexivity.
+  - cbn [srun_in]. destruct (op_ok p o) eqn:Hok; [|left; reflexivity].
+    destruct (step_timeline p gs g w d o HQS HJI HTI Hok) as (s & gs1 & g1 & Es & HQ1 & Ex1 & HJ1 & HT1 & Hop & Hk1 & (Hss & n & Hsend & Hns & Hbound)).
+    rewrite Es. cbn [res_bind].
+    assert (Hnp1 : ps_nplayers (sr_state s) = ps_nplayers p).
+    { destruct (qs_n _ _ _ _ HQ1) as (_ & _ & A & _). destruct (qs_n _ _ _ _ HQS) as (_ & _ & B & _).
+      destruct (qs_n _ _ _ _ HQ1) as (C & _). destruct (qs_n _ _ _ _ HQS) as (D & _). rewrite Hk1 in A. lia. }
+    pose proof (op_hist_grows w d p o gs gs1 (sr_state s) HQS HQ1 Hnp1 Hop) as Hg1.
+    destruct (IH (sr_state s) gs1 g1 w d HQ1 HJ1 HT1 ltac:(rewrite Hss; exact Hne) ltac:(rewrite Hss; exact Hex))
+      as [Herr|(p' & outs & gs' & g' & E1 & Ex & HQ' & HJ' & HT' & Hg' & Hss' & Hnp' & Hmono & Hall)].
+    + left. rewrite Herr. reflexivity.
+    + right. rewrite E1. cbn [res_bind].
+      exists p', ((sr_out s, sr_api s) :: outs), gs', g'. split; [reflexivity|].
+      split; [cbn [exec_outs]; rewrite Ex1; exact Ex|]. split; [exact HQ'|]. split; [exact HJ'|]. split; [exact HT'|].
+      split; [eapply grows_gs_trans; eassumption|]. split; [congruence|]. split; [congruence|].
+      destruct (ps_spectators p) as [|b bs] eqn:Esp; [congruence|]. rewrite Hex in Hsend.
+      specialize (Hbound ltac:(discriminate)).
+      split; [lia|].
+      unfold all_spec_sends in *. cbn [map concat fst]. rewrite Hall, Hsend.
+      replace (Z.to_nat (ps_next_spec p' - ps_next_spec p)) with (n + Z.to_nat (ps_next_spec p' - ps_next_spec (sr_state s)))%nat by lia.
+      rewrite zrange_app, map_app, Hns. f_equal.
+      apply map_ext_in. intros f Hf. apply zrange_in in Hf. f_equal. symmetry.
+      apply held_at_stable; [eapply grows_gs_trans; eassumption| |].
+      * destruct (qs_spec _ _ _ _ HQS ltac:(rewrite Esp; discriminate)) as (A & _). lia.
+      * eapply Forall_impl; [|exact Hbound]. cbv beta. intros g0 Hg0. lia.
 Qed.
 
 Lemma TI_start : forall n w d kinds eps nspec, TI (session_start n w false d kinds eps nspec) (repeat ([], 0) (Z.to_nat n)) [].
@@ -985,6 +1098,31 @@ Proof.
   apply (gq_known _ _ _ _ _ (HGI h q (hist, low) Eq Eg)); [lia|cbn [fst]; lia|].
   destruct (Z.eq_dec (q_first_incorrect q) NULL) as [En|En]; [left; exact En|right].
   destruct (qi_p4 _ _ _ _ _ Hqi En) as (_ & (A & _) & _). lia.
+Qed.
+
+
+(* C06, host half, from the start of a session with spectators *)
+Theorem host_broadcast_is_confirmed_timeline : forall ops n w d kinds eps nspec p outs,
+  1 <= w -> 0 <= d -> w + d + 3 <= QLEN -> 0 < n -> Z.of_nat (length kinds) = n -> players_only kinds -> (0 < nspec)%nat ->
+  srun_in predict (session_start n w false d kinds eps nspec) ops = Ok (p, outs) ->
+  exists gs, QS w d p gs /\
+    all_spec_sends outs = map (fun f => (f, held_at gs f)) (zrange_from 0 (Z.to_nat (ps_next_spec p))) /\
+    0 <= ps_next_spec p /\ s_last_confirmed (ps_sync p) + 1 <= ps_next_spec p /\
+    Forall (fun g : ghost => ps_next_spec p <= hlen (fst g)) gs.
+Proof.
+  intros ops n w d kinds eps nspec p outs Hw Hd Hcap Hn Hlen Hpl Hns H.
+  assert (Hsp : ps_spectators (session_start n w false d kinds eps nspec) = repeat true nspec) by reflexivity.
+  destruct (run_timeline_broadcast ops _ _ (game0 w) w d (QS_start n w d kinds eps nspec Hw Hd Hcap Hn Hlen Hpl)
+              (JI_start n w d kinds eps nspec ltac:(lia)) (TI_start n w d kinds eps nspec))
+    as [E|(p' & outs' & gs & g & E1 & _ & HQS & _ & _ & _ & Hss & _ & Hmono & Hall)].
+  - rewrite Hsp. destruct nspec; [lia|discriminate].
+  - rewrite Hsp. destruct nspec; [lia|reflexivity].
+  - congruence.
+  - rewrite H in E1. injection E1 as <- <-. exists gs. split; [exact HQS|].
+    change (ps_next_spec (session_start n w false d kinds eps nspec)) with 0 in Hall, Hmono. rewrite Z.sub_0_r in Hall.
+    split; [exact Hall|].
+    assert (Hne : ps_spectators p <> []) by (rewrite Hss, Hsp; destruct nspec; [lia|discriminate]).
+    exact (qs_spec _ _ _ _ HQS Hne).
 Qed.
 
 End Timeline.
